@@ -219,6 +219,36 @@ C17_MICRO = [
 ]
 
 
+C18_SPECIAL = [
+    # identifiers in places where the tool's own scans walk over them: stringification / token pasting in macro bodies
+    # inside a conditional block, names in #if / #ifdef / #undef, function-like macro calls in conditions
+    ("s1.h", "#ifndef S1_H\n# define S1_H\n\n# define STR({a}) #{a}\n# define CAT({a}, {b}) {a}##{b}\n# define {M} 42\n\nint\t{c}(int {a});\n\n#endif\n"),
+    ("s2.c", "#ifdef {M}\n# define {N} 1\n#else\n# define {N} 2\n#endif\n#undef {M}\n#if defined({N}) && {N} > 1\n# define {K} #{N}\n#endif\n\nint\t{c}(int {a})\n{\n\treturn ({a} + {N});\n}\n"),
+    ("s3.c", "#if {M}({N}, 7)\n# define {K}({a}) {a}##{a}\n#elif {N}\n# define {K}({b}) #{b}\n#endif\n\nint\t{c}(void)\n{\n\treturn ({K}(1));\n}\n"),
+    ("s4.h", "#ifndef S4_H\n# define S4_H\n\n# ifdef {M}\n#  define {K}({a}, {b}) {a} ## {b}\n# endif\n\ntypedef struct s_{a}\n{\n\tint\t{b};\n}\tt_{a};\n\n#endif\n"),
+]
+
+
+def c18_special(idx):
+    import re
+    name, tmpl = C18_SPECIAL[idx]
+    lines = F.header_lines(name) + [F.Line([""], "blank")]
+    slots = {}
+    defaults = {"a": "arg", "b": "bit", "c": "cnt", "M": "MAC", "N": "NUM", "K": "KEY"}
+    for raw in tmpl.split("\n")[:-1]:
+        parts = []
+        for tok in re.split(r"(\{[a-cMNK]\})", raw):
+            if re.fullmatch(r"\{[a-cMNK]\}", tok):
+                k = tok[1]
+                if k not in slots:
+                    slots[k] = F.Slot("macro" if k.isupper() else "id", defaults[k])
+                parts.append(slots[k])
+            elif tok:
+                parts.append(tok)
+        lines.append(F.Line(parts or [""], "raw"))
+    return F.Prog(name, lines)
+
+
 def c17_micro(idx):
     import re
     name, tmpl = C17_MICRO[idx]
@@ -271,6 +301,9 @@ def chunks(prop, tier, n):
             out.append(dict(prop=prop, seed=sd, kind="c", mode="append", sub=len(out), gen_tier="thorough"))
             out.append(dict(prop=prop, seed=sd, kind="c", mode="append", sub=len(out), gen_tier="thorough", viol=True))
     if prop == "C18":
+        for m in range(len(C18_SPECIAL)):
+            for rot in range(2):
+                out.append(dict(prop=prop, special=m, seed=m, kind="c", rot=rot))
         for m in range(len(F.micro_programs())):
             out.append(dict(prop=prop, micro=m, seed=m, kind="c", rot=0))
     if prop == "C17":
@@ -366,6 +399,8 @@ def run_chunk(chunk, ctx):
                 return out
             items = None
         elif prop == "C18":
+            if "special" in chunk:
+                prog = c18_special(chunk["special"])
             slots = prog.slots()
             ids = {s.id for s in slots if s.kind in IDKINDS or s.kind.startswith("pid:")}
             group = [s for s in slots if s.kind in IDKINDS]
